@@ -46,6 +46,21 @@ pub enum SerVal {
     DisplayText(String),
 }
 
+/// the serializable input that denotes a plain Value (None, Bool, Int, Float, String, lists and string-keyed maps of them);
+/// values with no image in the serde data model (Decimal, DateTime, Duration) have none
+pub fn from_value(v: &Value) -> Option<SerVal> {
+    Some(match v {
+        Value::None => SerVal::None,
+        Value::Bool(b) => SerVal::Bool(*b),
+        Value::Int(i) => SerVal::I128(*i),
+        Value::Float(f) => SerVal::F64(*f),
+        Value::String(s) => SerVal::Str(s.clone()),
+        Value::Vec(xs) => SerVal::Seq(xs.iter().map(from_value).collect::<Option<Vec<_>>>()?),
+        Value::Map(m) => SerVal::Map(m.iter().map(|(k, x)| Some((SerVal::Str(k.clone()), from_value(x)?))).collect::<Option<Vec<_>>>()?),
+        _ => return None,
+    })
+}
+
 struct Bytes<'a>(&'a [u8]);
 impl Serialize for Bytes<'_> {
     fn serialize<S: Serializer>(&self, s: S) -> Result<S::Ok, S::Error> {
